@@ -57,6 +57,17 @@ def _run(ctx):
     pools_i = common.param_index_of_type(calc, r"^\[%s; 2\]$" % ctx.N.rx("Asset"))
     cinfo_i = common.param_index_of_type(calc, r"^&'?\w* ?cosmwasm_std::\S*MessageInfo$")
     pinfo_i = common.param_index_of_type(calc, r"^&'?\w* ?%s$" % ctx.N.rx("PairInfoRaw"))
+    # the calculator may take just the pieces it uses: the sender instead of MessageInfo, the requirements instead of the record
+    SENDER_SUFFIX, REQ_SUFFIX = ".sender", ".requirements"
+    if cinfo_i is None:
+        cinfo_i = common.param_index_of_type(calc, r"^cosmwasm_std::\S*Addr$")
+        SENDER_SUFFIX = ""
+    if pinfo_i is None:
+        reqs_ = [a_["path"] for a_ in P.adts.values() if a_.get("kind") == "struct" and a_["path"].startswith("haloswap::") and
+                 {"whitelist", "first_asset_minimum", "second_asset_minimum"} <= {f_["name"] for f_ in a_["variants"][0]["fields"]}]
+        if len(reqs_) == 1:
+            pinfo_i = common.param_index_of_type(calc, "^%s$" % re.escape(reqs_[0]))
+            REQ_SUFFIX = ""
     if None in (sup_i, dep_i, pools_i, cinfo_i, pinfo_i):
         n1.fail("C05.N1:anchor", calc.path, calc.span, "anchor-missing: share calculator parameters")
         return
@@ -123,10 +134,10 @@ def _run(ctx):
         val = v[3][0][1]
         D0, D1 = P_(calc, dep_i, "[0]"), P_(calc, dep_i, "[1]")
         want_conds = {
-            "contains(%s, %s) is [True]" % (P_(calc, pinfo_i, ".requirements.whitelist"), P_(calc, cinfo_i, ".sender")),
+            "contains(%s, %s) is [True]" % (P_(calc, pinfo_i, REQ_SUFFIX + ".whitelist"), P_(calc, cinfo_i, SENDER_SUFFIX)),
             zero_eq + "[True]",
-            "le(%s, %s)" % (P_(calc, pinfo_i, ".requirements.first_asset_minimum"), D0),
-            "le(%s, %s)" % (P_(calc, pinfo_i, ".requirements.second_asset_minimum"), D1),
+            "le(%s, %s)" % (P_(calc, pinfo_i, REQ_SUFFIX + ".first_asset_minimum"), D0),
+            "le(%s, %s)" % (P_(calc, pinfo_i, REQ_SUFFIX + ".second_asset_minimum"), D1),
         }
         if cs != want_conds:
             missing = want_conds - cs
@@ -191,7 +202,7 @@ def _run(ctx):
     if set(ctx.roots(qv[4][0])) != {"load(%s)" % ctx.N.PAIR_INFO} or set(ctx.roots(qv[4][3])) != {P_(f, env, ".contract.address")}:
         r7.fail("C05.R7:pools-origin", f.path, common.span_of_block_term(f, qp[0][0]), "reserves are not read from the pair's own PAIR_INFO / address")
     dep_roots = "|".join(sorted(ctx.roots(cv[4][dep_i])))
-    want = {cinfo_i: {P_(f, info)}, pinfo_i: {"load(%s)" % ctx.N.PAIR_INFO}}
+    want = {cinfo_i: {P_(f, info) + ("" if SENDER_SUFFIX else ".sender")}, pinfo_i: {"load(%s)%s" % (ctx.N.PAIR_INFO, "" if REQ_SUFFIX else ".requirements")}}
     for i_, w_ in want.items():
         if set(ctx.roots(cv[4][i_])) != w_:
             r7.fail("C05.R7:calc-arg%d" % i_, f.path, common.span_of_block_term(f, cbb), "share calculator argument %d ⊢ %s, expected %s" % (i_, sorted(ctx.roots(cv[4][i_])), sorted(w_)))
@@ -226,6 +237,8 @@ def _run(ctx):
         else:
             r7.site("share Mint amount ⊢ calculator result (− reserved unit on first provision)")
         wantr = {"or(%s;%s)" % (P_(f, recv_i), P_(f, info, ".sender"))}
+        if rc == {"or(valid(%s);%s)" % (P_(f, recv_i), P_(f, info, ".sender"))}:
+            rc = wantr        # the receiver was validated first: addr_validate(x) is x
         if rc != wantr and rc <= {P_(f, recv_i), "valid(%s)" % P_(f, recv_i), P_(f, info, ".sender")} and P_(f, info, ".sender") in rc:
             # the same choice spelled as `match receiver { Some(r) => validate(r)?, None => sender }`
             if common.option_choice_local(P, ctx.R, f, P_(f, recv_i), rc - {P_(f, info, ".sender")}, {P_(f, info, ".sender")},
